@@ -152,7 +152,16 @@ def build(fluxcase, rendered, damage=None):
         trk.append(row)
     pad = [rng.below(3) for _ in range(tracks)] if fluxcase.get('pad') else None
     exact = [rng.chance(0.5) for _ in range(tracks)] if fluxcase.get('exact_len') else None
-    return flux.hfe_file(version, enc, trk, sides, pad_tracks=pad, exact_len=exact), info
+    # header bytes 0x16..0x19: a side may declare the encoding of its track 0 explicitly (alt-encoding flag 0x00 +
+    # encoding byte) instead of inheriting the global one; the unused encoding byte of the other side is 0xFF
+    code = 2 if enc == 'fm' else 0
+    ho = {}
+    alt0 = fluxcase.get('alt0') or []
+    for s_ in (0, 1):
+        if s_ in alt0:
+            ho[str(0x16 + 2 * s_)] = 0x00
+            ho[str(0x17 + 2 * s_)] = code
+    return flux.hfe_file(version, enc, trk, sides, pad_tracks=pad, exact_len=exact, header_overrides=ho or None), info
 
 
 def gen_fluxcase(rng, enc=None, container=None, sides=None, small=False):
@@ -165,6 +174,8 @@ def gen_fluxcase(rng, enc=None, container=None, sides=None, small=False):
     fc = {'container': container, 'enc': enc, 'tracks': tracks, 'spt': spt, 'sides': sides or rng.weighted([(3, 1), (1, 2)]),
           'seed': rng.next64() & 0xFFFFFFFF, 'params': rng.choice(['same', 'same', 'per-track']),
           'order': rng.choice([None, 'seq', 'interleave2', 'skew', 'random']), 'pad': rng.chance(0.3), 'exact_len': rng.chance(0.5)}
+    if container != 'mfm':
+        fc['alt0'] = rng.weighted([(5, []), (2, [0]), (2, [1]), (2, [0, 1])])
     if container == 'hfe3':
         kinds = rng.choice([['nop'], ['setindex'], ['setbitrate'], ['nop', 'setindex', 'setbitrate'], ['skipbits'],
                             ['nop', 'setindex', 'setbitrate', 'skipbits'], []])
